@@ -10,11 +10,21 @@
     permalink/title, smarty substitutions, footnotes BACKLINK_TEXT, abbr glossary) exercise `xmlcharrefreplace`.
     Required:  bytes written == markdown.markdown(input_bytes.decode(enc).lstrip('\\ufeff'), **kw).encode(enc, 'xmlcharrefreplace')
     stdin input: only with a stdin whose text layer already has the encoding asked for (the other case is F-C20-1).
+    IN PLACE (~9 % of the file cases): input and output are the SAME path (`out` = 'inplace'): afterwards the file holds the
+    HTML of its former content (the source has to be read before the target is opened for writing).
+ H. HISTORY cases (~12 % of the file budget): ONE `Markdown(**kw)` instance, 2-4 `convertFile` calls in a row, each with its
+    own document, encoding (explicit, alias, `encoding=None`, or the argument omitted = the documented default utf-8),
+    input path / BytesIO, output path / BytesIO / stdout / in place, optionally `reset()` before the call.
+    Required for every call i:  bytes written == html_i.encode(enc_i or 'utf-8', 'xmlcharrefreplace')  where html_i is what
+    the same history gives through the string API on one instance (`ref = Markdown(**kw)`; `ref.reset()` where the history
+    resets; `ref.convert(data_i.decode(enc_i or 'utf-8').lstrip('\ufeff'))`): the encoding of a call is that call's argument,
+    nothing remembered from an earlier call.  A history whose string-API reference raises is cut before that step.
  B. OPTION cases (~35 %; in process): `markdown.__main__.parse_options(argv)` for random argv (short/long/attached/`=`
     spellings, unambiguous abbreviations, repeated options, interspersed positionals, `--`, -c with JSON or YAML files in
     the encoding given by -e, -q/-v/--noisy) against the expected (kwargs dict, verbosity) computed here.
  C. CLI cases (a few per call: a subprocess each): `python -m markdown` with -e/-o/-f/-x/-c/-n, input file or stdin (stdin:
-    PYTHONIOENCODING = the encoding), output file or stdout; bytes compared as in A.
+    PYTHONIOENCODING = the encoding), output file or stdout or IN PLACE (`-f <the input file>`; the first command-line case
+    of every call is in place, a quarter of the others with a file input); bytes compared as in A.
 
 distinct = number of different (encoding, input kind, output kind, document) with non-empty output, plus different argv.
 """
@@ -131,6 +141,9 @@ def run_file_case(case):
             inp = None
             sys.stdin = io.TextIOWrapper(io.BytesIO(data), encoding=case['enc_data'])
         if case['out'] == 'path': outp = os.path.join(tmp, 'out.html')
+        elif case['out'] == 'inplace':
+            if case['in'] != 'path': raise ValueError('in place needs a path input')
+            outp = inp
         elif case['out'] == 'stream':
             outp = _Out(); outp.write(case['pre'].encode('ascii'))
         else:
@@ -146,7 +159,7 @@ def run_file_case(case):
                 if outp is not None or case.get('explicit_none'): args['output'] = outp
                 if enc is not None or case.get('explicit_none'): args['encoding'] = enc
                 markdown.markdownFromFile(**args)
-            if case['out'] == 'path':
+            if case['out'] in ('path', 'inplace'):
                 with open(outp, 'rb') as f: got = f.read()
             elif case['out'] == 'stream': got = outp.getvalue()
             else: got = sys.stdout.buffer.getvalue()
@@ -155,6 +168,98 @@ def run_file_case(case):
     finally:
         shutil.rmtree(tmp, ignore_errors=True)
     return got, want
+
+
+# ---- histories of convertFile calls on one instance ------------------------------------------------------------------
+
+def _step_data(st):
+    return ('\ufeff' * st['boms'] + st['doc']).encode(st['enc_data'])
+
+
+def history_reference(case):
+    """[expected bytes per step] through the string API on ONE instance; stops before the first step whose conversion raises"""
+    import markdown
+    ref = markdown.Markdown(**json.loads(json.dumps(case['kw'])))
+    wants = []
+    for st in case['steps']:
+        data = _step_data(st)
+        try:
+            if st['reset']: ref.reset()
+            html = ref.convert(data.decode(st['enc_data']).lstrip('\ufeff'))
+        except Exception:
+            break
+        wants.append(st['pre'].encode('ascii') * (st['out'] == 'stream') + html.encode(st['enc_data'], 'xmlcharrefreplace'))
+    return wants
+
+
+def run_history_case(case):
+    """-> None or (observed, required)"""
+    import markdown
+    wants = history_reference(case)
+    case['_steps_run'] = len(wants)
+    md = markdown.Markdown(**json.loads(json.dumps(case['kw'])))
+    tmp = tempfile.mkdtemp(prefix='c20h_')
+    old_out = sys.stdout
+    try:
+        for i, (st, want) in enumerate(zip(case['steps'], wants)):
+            data = _step_data(st)
+            if st['in'] == 'path':
+                inp = os.path.join(tmp, 'in %d.txt' % i)
+                with open(inp, 'wb') as f: f.write(data)
+            else: inp = io.BytesIO(data)
+            if st['out'] == 'path': outp = os.path.join(tmp, 'out%d.html' % i)
+            elif st['out'] == 'inplace': outp = inp
+            elif st['out'] == 'stream':
+                outp = _Out(); outp.write(st['pre'].encode('ascii'))
+            else:
+                outp = None; sys.stdout = _Stdout()
+            args = {'input': inp, 'output': outp}
+            if not (st['enc'] is None and st['omit']): args['encoding'] = st['enc']
+            what = 'call %d of %d (%s)' % (i + 1, len(case['steps']), ', '.join('%s: encoding %s' % (j + 1, 'omitted' if (x['enc'] is None and x['omit']) else repr(x['enc'])) for j, x in enumerate(case['steps'][:i + 1])))
+            try:
+                if st['reset']: md.reset()
+                r = md.convertFile(**args)
+                if r is not md: return ('%s: convertFile does not return the instance' % what, 'the instance')
+                if st['out'] in ('path', 'inplace'):
+                    with open(outp, 'rb') as f: got = f.read()
+                elif st['out'] == 'stream': got = outp.getvalue()
+                else: got = sys.stdout.buffer.getvalue()
+            except RecursionError:
+                raise
+            except Exception as e:
+                return ('%s raised %s: %s' % (what, type(e).__name__, str(e)[:300]), repr(want[:600]))
+            finally:
+                sys.stdout = old_out
+            if got != want: return ('%s wrote %r' % (what, got[:1000]), repr(want[:1000]))
+        return None
+    finally:
+        sys.stdout = old_out
+        shutil.rmtree(tmp, ignore_errors=True)
+
+
+def gen_history_case(rng, counters):
+    kw = gen_kwargs(rng)
+    steps = []
+    for i in range(rng.choice([2, 2, 3, 4])):
+        r = rng.random()
+        if r < 0.42: enc0, enc = 'utf-8', None                      # the documented default
+        else:
+            enc0 = enc = rng.choice(ENCODINGS)
+            if rng.random() < 0.12 and enc0 in ALIASES:
+                enc = rng.choice(ALIASES[enc0])
+                try: codecs.lookup(enc)
+                except LookupError: enc = enc0
+        doc = fit(rng, D.document(rng, 1, 3, counters=counters), enc0)
+        if enc is None and rng.random() < 0.7: doc += '\n\n' + rng.choice(['имя_файла_ тут *текст*', 'café_au_lait_ ß', '日本語 *テスト*', 'naïve “q” — x', '\U0001F600 _e_'])
+        if i == 0 or rng.random() < 0.3: doc += trigger_text(kw)
+        try: ok = encodable({'boms': 0, 'doc': doc, 'enc_data': enc0})
+        except Exception: ok = False
+        if not ok: doc = 'plain *text* %d' % i
+        inn = rng.choice(['path', 'stream'])
+        out = rng.choice(['path', 'stream', 'stream', 'stdout'] + (['inplace'] if inn == 'path' else []))
+        steps.append({'doc': doc, 'enc': enc, 'enc_data': enc0, 'omit': enc is None and rng.random() < 0.6, 'boms': rng.choice([0, 0, 0, 1]) if enc0.startswith('utf') else 0,
+                      'in': inn, 'out': out, 'pre': rng.choice(['', '', 'PRE\n']), 'reset': rng.random() < 0.6})
+    return {'kind': 'history', 'kw': kw, 'steps': steps}
 
 
 def gen_file_case(rng, counters):
@@ -173,6 +278,7 @@ def gen_file_case(rng, counters):
             'in': rng.choice(['path', 'path', 'stream', 'stream', 'stdin']), 'out': rng.choice(['path', 'stream', 'stdout']), 'api': rng.choice(['method', 'function']),
             'kw': kw, 'pre': rng.choice(['', '', 'PRE\n']), 'explicit_none': rng.random() < 0.5}
     if case['in'] == 'stdin' and enc0 in ('utf-16', 'utf-32', 'utf-8-sig'): case['in'] = 'stream'   # BOM handling of a text-mode stdin is the io module's
+    if rng.random() < 0.09: case['in'], case['out'] = 'path', 'inplace'      # the output path IS the input path
     return case
 
 
@@ -331,7 +437,7 @@ def run_cli_case(case):
             raise OSError('command-line child killed by signal %d' % -p.returncode)
         if case['outfile']:
             try:
-                with open(os.path.join(tmp, 'out.html'), 'rb') as f: got = f.read()
+                with open(os.path.join(tmp, 'in.txt' if case.get('inplace') else 'out.html'), 'rb') as f: got = f.read()
             except OSError: got = b'<<no output file>>' + p.stdout
         else: got = p.stdout
         kw = {'extensions': case['exts'], 'extension_configs': case['configs'] or {}, 'output_format': case['fmt']}
@@ -341,9 +447,9 @@ def run_cli_case(case):
         shutil.rmtree(tmp, ignore_errors=True)
 
 
-def gen_cli_case(rng, counters):
+def gen_cli_case(rng, counters, force_inplace=False):
     enc = rng.choice(ENCODINGS + [None])
-    stdin = rng.random() < 0.25
+    stdin = rng.random() < 0.25 and not force_inplace
     if stdin and enc in ('utf-16', 'utf-32', 'utf-8-sig'): enc = 'utf-8'
     doc = fit(rng, D.document(rng, 1, 4, counters=counters), enc or 'utf-8')
     if stdin: doc = doc.replace('﻿', '').replace('\r', '')   # text-mode stdin: BOM and newline translation belong to io, not to markdown
@@ -360,9 +466,10 @@ def gen_cli_case(rng, counters):
         if config_text(configs, enc, as_yaml) is None: configs = {}     # not writable in this encoding (astral character)
         args += ['-c', '@TMP@/cfg.' + ('yml' if as_yaml else 'json')]
     if rng.random() < 0.3: args += ['-n']
-    outfile = rng.random() < 0.5
-    if outfile: args += ['-f', '@TMP@/out.html']
-    return {'kind': 'cli', 'doc': doc, 'enc': enc, 'stdin': stdin, 'stdio_enc': (enc or 'utf-8') if stdin else None, 'args': args, 'exts': kw['extensions'], 'configs': configs,
+    outfile = rng.random() < 0.5 or force_inplace
+    inplace = outfile and not stdin and (force_inplace or rng.random() < 0.25)
+    if outfile: args += ['-f', '@TMP@/in.txt' if inplace else '@TMP@/out.html']      # in.txt is the input file run_cli_case writes and names last
+    return {'kind': 'cli', 'inplace': inplace, 'doc': doc, 'enc': enc, 'stdin': stdin, 'stdio_enc': (enc or 'utf-8') if stdin else None, 'args': args, 'exts': kw['extensions'], 'configs': configs,
             'yaml': as_yaml, 'fmt': fmt, 'outfile': outfile}
 
 
@@ -372,6 +479,9 @@ def _check(case):
     """None or (observed, required)"""
     k = case.get('kind')
     if k == 'parse': return run_parse_case(case)
+    if k == 'history':
+        try: return run_history_case(case)
+        finally: case.pop('_steps_run', None)
     if k == 'cli':
         got, want, rc, err = run_cli_case(case)
         if got != want or rc != 0: return ('rc=%d %r stderr: %s' % (rc, got[:800], err), repr(want[:800]))
@@ -402,12 +512,34 @@ def replay_violation(v):
 
 
 def search(driver, rng, n):
-    dist = {'file_cases': 0, 'parse_cases': 0, 'cli_cases': 0, 'enc': {}, 'in': {}, 'out': {}, 'api': {}, 'skipped_unencodable': 0, 'charrefs_needed': 0, 'bom': 0, 'nonascii_docs': 0,
+    dist = {'file_cases': 0, 'history_cases': 0, 'history_steps': 0, 'history_cut': 0, 'history_default_after_other': 0, 'inplace': 0, 'cli_inplace': 0, 'parse_cases': 0, 'cli_cases': 0, 'enc': {}, 'in': {}, 'out': {}, 'api': {}, 'skipped_unencodable': 0, 'charrefs_needed': 0, 'bom': 0, 'nonascii_docs': 0,
             'skipped_exception': {}, 'pieces': {}, 'yaml': yaml_supported(), 'parse_with_config': 0, 'empty_output': 0}
     viol = []; samples = []; seen = set(); cases = 0
-    n_cli = max(2, min(300, n // 150))
+    n_cli = max(3, min(300, n // 150))
     n_parse = n * 35 // 100
-    n_file = max(1, n - n_parse - n_cli)
+    n_hist = max(2, (n - n_parse - n_cli) * 12 // 100)
+    n_file = max(1, n - n_parse - n_cli - n_hist)
+    for _ in range(n_hist):
+        case = gen_history_case(rng, dist['pieces'])
+        cases += 1; dist['history_cases'] += 1
+        try:
+            bad = run_history_case(case)
+        except RecursionError:
+            dist['skipped_exception']['RecursionError'] = dist['skipped_exception'].get('RecursionError', 0) + 1; continue
+        except Exception as e:
+            bad = ('the history check raised %s: %s' % (type(e).__name__, str(e)[:300]), 'every call completes')
+        k = case.pop('_steps_run', 0)
+        dist['history_steps'] += k
+        if k < len(case['steps']): dist['history_cut'] += 1
+        st = case['steps'][:k]
+        for a, b in zip(st, st[1:]):
+            if b['enc'] is None and a['enc_data'] != 'utf-8': dist['history_default_after_other'] += 1
+        for x in st:
+            if x['out'] == 'inplace': dist['inplace'] += 1
+        if k >= 2: seen.add(('history', tuple((x['enc'], x['omit'], x['in'], x['out'], x['doc']) for x in st)))
+        if bad and len(viol) < 30:
+            viol.append({'input': case, 'config': dict(case['kw'], encodings=[('omitted' if (x['enc'] is None and x['omit']) else x['enc']) for x in case['steps']]),
+                         'observed': bad[0][:1500], 'required': bad[1][:1500], 'finding': None})
     done = 0
     while done < n_file:
         case = gen_file_case(rng, dist['pieces'])
@@ -417,6 +549,7 @@ def search(driver, rng, n):
         for k in ('in', 'out', 'api'): dist[k][case[k]] = dist[k].get(case[k], 0) + 1
         dist['enc'][case['enc_data']] = dist['enc'].get(case['enc_data'], 0) + 1
         if case['boms']: dist['bom'] += 1
+        if case['out'] == 'inplace': dist['inplace'] += 1
         if any(ord(c) > 127 for c in case['doc']): dist['nonascii_docs'] += 1
         try:
             bad = _check(case)
@@ -445,12 +578,13 @@ def search(driver, rng, n):
         seen.add(('argv', tuple(case['argv'])))
         if bad and len(viol) < 30:
             viol.append({'input': case, 'config': {}, 'observed': bad[0][:1500], 'required': bad[1][:1500], 'finding': None})
-    for _ in range(n_cli):
-        case = gen_cli_case(rng, dist['pieces'])
+    for i_cli in range(n_cli):
+        case = gen_cli_case(rng, dist['pieces'], force_inplace=(dist['cli_inplace'] == 0))   # at least one in-place run per call
         try: case['doc'].encode(case['enc'] or 'utf-8')
         except UnicodeError:
             dist['skipped_unencodable'] += 1; continue
         cases += 1; dist['cli_cases'] += 1
+        if case['inplace']: dist['cli_inplace'] += 1
         try:
             bad = _check(case)
         except subprocess.TimeoutExpired:
